@@ -7,7 +7,7 @@ from .base import Verdict, sig_of, crash_check, rc_in_enum, leak_check
 
 ID = "C04"
 LEVEL = "exploration"
-RUNS = (12000, 400000)
+RUNS = (9000, 400000)
 RULE = ("1-3 stored files, each rendered from the full 5.1 grammar, from the option-specific shapes (repeated keys, indented lines), "
         "written by the library itself, or unstructured (structural characters only, NUL/8-bit bytes, 64 KiB line), then hit by "
         "0-3 seeded storage faults (truncate, bit flip, zero range, duplicated/swapped sectors, garbage splice, foreign file, CRLF, "
@@ -44,6 +44,17 @@ def base_file(rng, D, C):
             else:
                 out.append("%s%s%s%s" % (k, d, rng.pick(["v1", "v 2", "\"q\"", "1"]), rng.pick(["", " # trailing"])))
         return "options", "\n".join(out) + "\n"
+    if r < 0.605:
+        # comment volume well above a small thread stack (every single comment stays below BUFSIZ)
+        d = D[0] if D else " "
+        c = C[0]
+        n = rng.pick([150, 300])
+        out = []
+        for k in range(n):
+            for _ in range(rng.pick([1, 2, 8])):
+                out.append(c + "x" * rng.pick([700, 3000, 6000]))
+            out.append("k%d%sv%d %s%s" % (k, d, k, c, "t" * rng.pick([10, 2000])) if D else "k%d" % k)
+        return "comment-volume", "\n".join(out) + "\n"
     if r < 0.66:
         # counts just past allocation steps: many sections, many keys in one section, many group-less keys
         d = D[0] if D else " "
@@ -145,7 +156,7 @@ def gen_world(rng, i, tier):
             how, c = corrupt(rng, c)
             faults.append(how)
         files.append({"kind": kind, "faults": faults, "c": c})
-    w = {"kind": "storage", "D": D, "C": C, "opt": opt, "files": files, "cfg": gen.io_cfg(rng),
+    w = {"kind": "storage", "D": D, "C": C, "opt": opt, "files": files, "cfg": gen.io_cfg(rng), "small_stack": rng.chance(0.25),
          "tear": [rng.pick(["truncate", "zero", "bitflip", "dup"]), rng.randrange(4096), rng.randrange(1, 64)]}
     return w
 
@@ -199,6 +210,8 @@ def build_plans(world):
         ops.append({"op": "free", "k": k})
     total = sum(len(f["c"]) for f in files)
     cfg = dict(world["cfg"], events=False, step_budget=50000000 + 60000 * total)
+    if world.get("small_stack"):
+        cfg["stack_kb"] = 512
     return [{"cfg": cfg, "tree": tree, "ops": ops}]
 
 
@@ -234,6 +247,8 @@ def check(world, plans, results):
         for x in f["faults"]:
             v.probe("storage_fault_" + x)
         v.probe("base_" + f["kind"])
+    if world.get("small_stack"):
+        v.probe("caller_on_512KiB_stack")
     return v
 
 
